@@ -7,6 +7,16 @@ module M = Model
 let optz_of x = if atom x = "nil" then None else Some (zarg x)
 let rejected = L [A "rejected"]
 
+(* metadata filters (Reads.mfilter): (match "k" "v") (exists "k") (and a b) (or a b) (not a); nil = no filter *)
+let rec mflt_of = function
+  | L [A "match"; k; v] -> M.MfMatch (str k, str v)
+  | L [A "exists"; k] -> M.MfExists (str k)
+  | L [A "and"; a; b] -> M.MfAnd (mflt_of a, mflt_of b)
+  | L [A "or"; a; b] -> M.MfOr (mflt_of a, mflt_of b)
+  | L [A "not"; a] -> M.MfNot (mflt_of a)
+  | _ -> failwith "bad metadata filter"
+let mflt_opt = function A "nil" -> None | q -> Some (mflt_of q)
+
 let probe f (s : M.state) = function
   | L [A "vol"; pit; oot; ins] ->
     (match M.read_volumes f s { M.w_pit = optz_of pit; M.w_oot = optz_of oot; M.w_ins = bool_of ins } with
@@ -27,6 +37,16 @@ let probe f (s : M.state) = function
   | L [A "txs"; pit] ->
     let rows = List.sort (fun a b -> zcmp a.M.tr_id b.M.tr_id) (M.read_transactions f s (optz_of pit)) in
     L [A "txs"; L (List.map (fun r -> L [zout r.M.tr_id; meta_sx r.M.tr_meta; zout r.M.tr_ts; optz r.M.tr_rev]) rows)]
+  | L [A "volq"; pit; oot; ins; g; q] ->
+    (match M.read_volumes_q f s { M.w_pit = optz_of pit; M.w_oot = optz_of oot; M.w_ins = bool_of ins } (mflt_opt q) (nat_of_int (int_of_string (atom g))) with
+     | None -> rejected | Some v -> L [A "rows"; volmap_sx v])
+  | L [A "aggq"; pit; ins; q] ->
+    (match M.read_aggregated_q f s (optz_of pit) (bool_of ins) (mflt_of q) with
+     | None -> rejected
+     | Some l -> let l = List.sort (fun (a, _) (b, _) -> cmp_str a b) l in L [A "agg"; L (List.map (fun (c, b) -> L [qs c; zout b]) l)])
+  | L [A "accsq"; pit; q] ->
+    let rows = List.sort (fun a b -> cmp_str a.M.ar_addr b.M.ar_addr) (M.read_accounts_q f s (optz_of pit) (mflt_of q)) in
+    L [A "accs"; L (List.map (fun r -> L [qs r.M.ar_addr; meta_sx r.M.ar_meta; zout r.M.ar_first; zout r.M.ar_ins; zout r.M.ar_upd]) rows)]
   | _ -> failwith "bad probe"
 
 let run_reads = function
